@@ -445,11 +445,14 @@ def generate_edges(chk, module, cfg, timeout=1800, args=(), heap="12g", workers=
 
 
 def simulate_walks(chk, module, cfg, num, depth, seed, timeout=1800):
-    """Role B by random simulation: the Emit action constraint prints the chosen transitions; a new
-    behaviour starts whenever `pre` is an initial state again (splitting a walk that returns to
-    the initial state is harmless)."""
-    walks = []
-    cur = []
+    """Role B by seeded TLC simulation.  This TLC evaluates the action constraint (Emit) on every
+    candidate successor of every simulated step, not only on the chosen one (measured by the
+    announcer family).  Consecutive records with the same pre-state form one level of candidates;
+    the behaviour TLC followed is rebuilt by chaining: the chosen candidate is one whose post-state is
+    the next level's pre-state (a seeded choice among several such candidates, each of them being a
+    transition of the model from that state).  Where nothing chains, a behaviour ended."""
+    import random
+    levels = []   # [prekey, [records]]
     inits = set()
     extra = {}
 
@@ -460,19 +463,32 @@ def simulate_walks(chk, module, cfg, num, depth, seed, timeout=1800):
             return
         if "pre" not in o:
             return
-        if cur and canon(o["pre"]) in inits:
-            walks.append(list(cur))
-            cur.clear()
-        cur.append(o)
+        pk = canon(o["pre"])
+        if levels and levels[-1][0] == pk:
+            levels[-1][1].append(o)
+        else:
+            levels.append([pk, [o]])
 
     res = tlc(chk.work, module, cfg, workers=1, timeout=timeout,
               args=["-simulate", "num=%d" % num, "-depth", str(depth), "-seed", str(seed)], json_sink=sink)
-    if cur:
-        walks.append(list(cur))
     if res.error and "timeout" in str(res.error):
         raise Inconclusive("TLC simulate %s: %s" % (cfg, res.error))
+    rnd = random.Random(seed * 104729 + 7)
+    walks, cur = [], []
+    for k, (pk, recs) in enumerate(levels):
+        if cur and (canon(cur[-1]["post"]) != pk):
+            walks.append(cur)
+            cur = []
+        nxt = levels[k + 1][0] if k + 1 < len(levels) else None
+        cands = [r for r in recs if nxt is not None and canon(r["post"]) == nxt]
+        cur.append(rnd.choice(cands if cands else recs))
+    if cur:
+        walks.append(cur)
+    # a behaviour always starts in an initial state; drop fragments that do not (cannot be replayed)
+    walks = [w for w in walks if canon(w[0]["pre"]) in inits] if inits else walks
     res.extra = extra
-    log("  %s: simulated %d walks, %d steps in %.1fs" % (cfg, len(walks), sum(map(len, walks)), res.wall))
+    log("  %s: simulated %d walks, %d steps (%d candidate records) in %.1fs"
+        % (cfg, len(walks), sum(map(len, walks)), sum(len(l[1]) for l in levels), res.wall))
     return walks, res
 
 
